@@ -6,18 +6,39 @@
 //! printed (positions whose f32 value is known a priori, faces zero-based)
 //! and the parsed builder must equal it exactly, whatever the layout.
 
+use super::iofault::{scratch_path, Chunky};
 use super::mutate::{mutate, show};
 use crate::{catch, Cfg, Hasher, Json, Report, Rng};
-use re_geom::io::{parse_obj, read_obj};
+use re_geom::io::{load_obj, parse_obj, read_obj};
 
 type Parsed = (Vec<[f32; 3]>, Vec<[usize; 3]>);
 
 fn parse_both(rep: &mut Report, bytes: &[u8], what: &str) -> Option<Result<Parsed, String>> {
     let cj = || Json::obj().set("what", what).set("input", show(bytes)).set("input_len", bytes.len());
+    let mut hs = Hasher::new();
+    hs.bytes(bytes);
+    let seed = hs.get();
+    // which: 0 parse_obj, 1 read_obj from a slice, 2 read_obj from a reader
+    // delivering 1..7-byte chunks with injected EINTR, 3 load_obj from a file
     let run = |which: u8| {
         let b = bytes.to_vec();
         catch(move || {
-            let r = if which == 0 { parse_obj(b) } else { read_obj(&b[..]) };
+            let r = match which {
+                0 => parse_obj(b),
+                1 => read_obj(&b[..]),
+                2 => read_obj(Chunky::new(&b, seed, None)),
+                _ => {
+                    let path = scratch_path("in.obj");
+                    if std::fs::write(&path, &b).is_err() {
+                        // environment problem, not the library's: fall back
+                        parse_obj(b)
+                    } else {
+                        let r = load_obj(&path);
+                        let _ = std::fs::remove_file(&path);
+                        r
+                    }
+                }
+            };
             r.map(|bld| {
                 let faces_ok = bld.mesh.faces.iter().all(|t| t.0.iter().all(|&i| i < bld.mesh.verts.len()));
                 let m = bld.build();
@@ -26,19 +47,38 @@ fn parse_both(rep: &mut Report, bytes: &[u8], what: &str) -> Option<Result<Parse
             .map_err(|e| format!("{e}"))
         })
     };
-    match (run(0), run(1)) {
-        (Err(m), _) | (_, Err(m)) => {
+    // a reader that fails for good mid-stream must not make the parser panic,
+    // and an Ok builder must still build
+    if !bytes.is_empty() {
+        let k = (seed >> 20) as usize % bytes.len();
+        let b = bytes.to_vec();
+        let r = catch(move || read_obj(Chunky::new(&b, seed ^ 0x5555, Some(k))).map(|bld| bld.build().faces.len()).is_ok());
+        rep.count("reader_faults.hard_failure_midstream");
+        if let Err(m) = r {
+            rep.violation("obj.parse_panicked", format!("read_obj (or build()) panicked when the reader failed at offset {k}: {m}"), cj().set("reader_fails_at", k));
+            return None;
+        }
+    }
+    // the third path alternates between the chunked reader and a real file
+    let third = if seed % 8 == 0 { 3 } else { 2 };
+    rep.count(if third == 3 { "reader_faults.load_obj_from_file" } else { "reader_faults.short_reads_with_eintr" });
+    match (run(0), run(1), run(third)) {
+        (Err(m), _, _) | (_, Err(m), _) | (_, _, Err(m)) => {
             rep.violation("obj.parse_panicked", format!("parsing (or build()) panicked: {m}"), cj());
             None
         }
-        (Ok(a), Ok(b)) => {
-            let same = match (&a, &b) {
+        (Ok(a), Ok(b), Ok(c)) => {
+            let eq = |a: &Result<(Vec<[f32; 3]>, Vec<[usize; 3]>, bool), String>, b: &Result<(Vec<[f32; 3]>, Vec<[usize; 3]>, bool), String>| match (a, b) {
                 (Ok(x), Ok(y)) => x.0.iter().map(|p| p.map(f32::to_bits)).eq(y.0.iter().map(|p| p.map(f32::to_bits))) && x.1 == y.1,
                 (Err(_), Err(_)) => true,
                 _ => false,
             };
-            if !same {
+            if !eq(&a, &b) {
                 rep.violation("obj.parse_vs_read_differ", "parse_obj and read_obj disagree on the same bytes".into(), cj());
+                return None;
+            }
+            if !eq(&a, &c) {
+                rep.violation("obj.parse_vs_read_differ", format!("{} disagrees with parse_obj on the same bytes", if third == 3 { "load_obj from a file" } else { "read_obj from a reader delivering short chunks with EINTR" }), cj());
                 return None;
             }
             match a {
@@ -369,4 +409,7 @@ pub fn run(cfg: &Cfg, rep: &mut Report) {
     rep.floor("layout.interleaved", 5_000);
     rep.floor("totality.parsed_ok_with_faces", 4_000);
     rep.floor("totality.rejected_with_error", 100_000);
+    rep.floor("reader_faults.hard_failure_midstream", 100_000);
+    rep.floor("reader_faults.short_reads_with_eintr", 100_000);
+    rep.floor("reader_faults.load_obj_from_file", 10_000);
 }
